@@ -10,6 +10,7 @@ Lemma wf_registry_parts : forall R, wf_registry R = true ->
   objects_distinct R = true /\ vendor_ok R = true.
 Proof.
   intros R H. unfold wf_registry in H.
+  apply andb_true_iff in H as [H _].
   apply andb_true_iff in H as [H H5]. apply andb_true_iff in H as [H H4].
   apply andb_true_iff in H as [H H3]. apply andb_true_iff in H as [H1 H2]. auto.
 Qed.
@@ -47,7 +48,7 @@ Lemma find_class_complete : forall R c,
   codes_unique R = true -> In c (r_classes R) ->
   find_class R (c_kind c) (c_code c) = Some c.
 Proof.
-  intros R c H Hin. unfold find_class. apply (no_dup_find _ (r_custom R)); assumption.
+  intros R c H Hin. unfold find_class. apply (no_dup_find _ (map (fun p => (K_COMMAND, p_code p)) (r_phy R))); assumption.
 Qed.
 
 Lemma find_class_sound : forall R k code c,
@@ -169,11 +170,11 @@ Proof.
 Qed.
 
 Theorem command_bytes_roundtrip : forall R b op known vs params,
-  bytes_ok b = true -> hd 0 b = HCI_COMMAND_PACKET ->
+  bytes_ok b = true -> hd 0 b = HCI_COMMAND_PACKET -> find_phy R op = None ->
   parse_command R b = Some (PCommand op known vs params) -> params <> [] ->
   packet_bytes R (PCommand op known vs params) = Some b.
 Proof.
-  intros R b op known vs params Hok Hhd Hp Hne.
+  intros R b op known vs params Hok Hhd Hnophy Hp Hne.
   unfold parse_command in Hp.
   destruct b as [|b0 [|b1 [|b2 [|b3 rest]]]]; try discriminate.
   cbn [length Nat.ltb Nat.leb skipn firstn nth] in Hp. cbn [hd] in Hhd. subst b0.
@@ -185,7 +186,12 @@ Proof.
   assert (params = rest /\ op = le_decode [b1; b2]) as [-> ->].
   { destruct (find_class R K_COMMAND (le_decode [b1; b2])).
     - destruct (parse_at0 (c_fields c) rest); [|discriminate]. inversion Hp. auto.
-    - destruct (is_custom R K_COMMAND (le_decode [b1; b2])); inversion Hp. auto. }
+    - destruct (find_phy R (le_decode [b1; b2])) as [pc|] eqn:Ephy.
+      + exfalso.
+        destruct (parse_phy pc (last rest 0) rest); [|discriminate].
+        destruct (serialize_phy pc l); [|discriminate].
+        assert (Hop : le_decode [b1; b2] = op) by congruence. rewrite Hop in Ephy. congruence.
+      + inversion Hp. auto. }
   cbn [packet_bytes]. rewrite cached_nonempty by assumption.
   unfold command_bytes. rewrite Hr.
   assert ((length rest <? 256)%nat = true) as -> by (apply Nat.ltb_lt; lia).
@@ -194,7 +200,7 @@ Qed.
 
 (* unknown opcode: a generic HCI_Command whose parameters are the packet's, byte for byte *)
 Theorem unknown_opcode_preserved : forall R op params,
-  find_class R K_COMMAND op = None -> is_custom R K_COMMAND op = false ->
+  find_class R K_COMMAND op = None -> find_phy R op = None ->
   u_range 2 op = true -> (length params < 256)%nat ->
   let b := HCI_COMMAND_PACKET :: le_encode 2 op ++ [Z.of_nat (length params)] ++ params in
   parse_packet R b = Some (PCommand op false [] params) /\
@@ -348,12 +354,9 @@ Proof.
     destruct (code =? HCI_COMMAND_COMPLETE_EVENT) eqn:E2.
     + apply Z.eqb_eq in E2. subst code.
       destruct vs as [|n [|[op| | |] [|x [|]]]]; try discriminate.
-      destruct (existsb (Z.eqb op) (r_custom_return R)).
-      * injection Hp as <-. cbn [packet_bytes]. rewrite cached_nonempty by assumption.
-        unfold class_event. rewrite Ef, Hev. apply event_bytes_shape; assumption.
-      * destruct (parse_return R op (skipn 3 ps)) as [[rn rvs]|]; [|discriminate].
-        injection Hp as <-. cbn [packet_bytes]. rewrite cached_nonempty by assumption.
-        unfold class_event. rewrite Ef, Hev. apply event_bytes_shape; assumption.
+      destruct (parse_return R op (skipn 3 ps)) as [[rn rvs]|]; [|discriminate].
+      injection Hp as <-. cbn [packet_bytes]. rewrite cached_nonempty by assumption.
+      unfold class_event. rewrite Ef, Hev. apply event_bytes_shape; assumption.
     + injection Hp as <-. cbn [packet_bytes]. rewrite cached_nonempty by assumption.
       unfold class_event. rewrite Ef, Hev. apply event_bytes_shape; assumption.
   - injection Hp as <-. cbn [packet_bytes]. rewrite cached_nonempty by assumption.
@@ -795,7 +798,7 @@ Qed.
 
 Theorem cmd_complete_roundtrip : forall R cc rc num op rn sf rvs rb,
   find_class R K_EVENT HCI_COMMAND_COMPLETE_EVENT = Some cc -> c_fields cc = CC_FIELDS ->
-  c_event cc = HCI_COMMAND_COMPLETE_EVENT -> existsb (Z.eqb op) (r_custom_return R) = false ->
+  c_event cc = HCI_COMMAND_COMPLETE_EVENT -> existsb (Z.eqb op) (r_lenient_return R) = false ->
   assoc op (r_return R) = Some (rn, sf) -> find_by_name R K_RETURN rn = Some rc ->
   wf_fields (c_fields rc) = true ->
   serialize_fields (c_fields rc) rvs = Some rb -> in_range (c_fields rc) (last rb 0) rvs = true ->
@@ -815,16 +818,126 @@ Proof.
     rewrite event_code_not_special by discriminate.
     unfold plain_event.
     rewrite Hcc, Hfs. unfold ps at 1. rewrite cc_par by assumption.
-    rewrite Z.eqb_refl, Hcust.
+    rewrite Z.eqb_refl.
     assert (skipn 3 ps = rb) as ->.
     { unfold ps. rewrite app_assoc. apply skipn_len_app. rewrite app_length, !le_encode_length. reflexivity. }
-    unfold parse_return. rewrite Hret, Hrc.
+    unfold parse_return. rewrite Hret, Hrc, Hcust.
     destruct (parse_serialize _ (last rb 0) rvs Hw Hi) as [b' [n [Hs' [Hp Hnn]]]].
-    rewrite Hs in Hs'. inversion Hs'; subst b'. clear Hs'.
+    rewrite Hs in Hs'. assert (b' = rb) as -> by congruence. clear Hs'.
     assert (Hpar : parse_at0 (c_fields rc) rb = Some rvs) by (unfold parse_at0; rewrite Hp; reflexivity).
     destruct sf.
     + destruct (Hst eq_refl) as [rest ->]. cbn [Z.eqb negb]. rewrite Hpar. reflexivity.
     + rewrite Hpar. reflexivity.
+Qed.
+
+(* ------------------------------------------------------------------ lenient return parse *)
+Lemma par_lenient_complete : forall fs prev bs vs n,
+  par_seq F_codec fs prev bs = Some (vs, n) -> par_lenient fs prev bs = vs.
+Proof.
+  induction fs as [|f fs IH]; intros prev bs vs n H.
+  - cbn in H. inversion H. reflexivity.
+  - cbn [par_seq] in H. cbn [par_lenient].
+    destruct (par F_codec f prev bs) as [[v n1]|]; [|discriminate].
+    destruct (par_seq F_codec fs (adv_prev n1 prev bs) (skipn n1 bs)) as [[vs' m]|] eqn:E; [|discriminate].
+    inversion H; subst. f_equal. eapply IH. exact E.
+Qed.
+
+Lemma par_lenient_length : forall fs prev bs, length (par_lenient fs prev bs) = length fs.
+Proof.
+  induction fs as [|f fs IH]; intros prev bs; [reflexivity|].
+  cbn [par_lenient]. destruct (par F_codec f prev bs) as [[v n]|].
+  - cbn [length]. rewrite IH. reflexivity.
+  - apply map_length.
+Qed.
+
+(* the field-by-field parse returns the values that were serialised (full-length input),
+   whatever the status *)
+Theorem lenient_return_roundtrip : forall R rc op rn sf rvs,
+  existsb (Z.eqb op) (r_lenient_return R) = true ->
+  assoc op (r_return R) = Some (rn, sf) -> find_by_name R K_RETURN rn = Some rc ->
+  tight_fields (c_fields rc) = true ->
+  forall prev, in_range (c_fields rc) prev rvs = true ->
+  exists rb, serialize_fields (c_fields rc) rvs = Some rb /\
+             forall tail, last (rb ++ tail) 0 = prev -> parse_return R op (rb ++ tail) = Some (rn, rvs).
+Proof.
+  intros R rc op rn sf rvs Hl Hret Hrc Ht prev Hi.
+  destruct (parse_serialize_tight _ prev rvs Ht Hi) as [rb [Hs Hp]].
+  exists rb. split; [exact Hs|]. intros tail Hlast.
+  unfold parse_return. rewrite Hret, Hrc, Hl. rewrite Hlast.
+  specialize (Hp tail). unfold parse_fields in Hp.
+  rewrite (par_lenient_complete _ _ _ _ _ Hp). reflexivity.
+Qed.
+
+(* a short return block gives a full-length value list: what could be read, then zeros *)
+Theorem lenient_return_total : forall R rc op rn sf rpb,
+  existsb (Z.eqb op) (r_lenient_return R) = true ->
+  assoc op (r_return R) = Some (rn, sf) -> find_by_name R K_RETURN rn = Some rc ->
+  exists rvs, parse_return R op rpb = Some (rn, rvs) /\ length rvs = length (c_fields rc).
+Proof.
+  intros R rc op rn sf rpb Hl Hret Hrc. unfold parse_return. rewrite Hret, Hrc, Hl.
+  eexists. split; [reflexivity | apply par_lenient_length].
+Qed.
+
+(* ------------------------------------------------------------------ PHY-mask commands *)
+Lemma par_seq_prefix : forall (c : codec) ss1 ss2 prev bs vs n,
+  par_seq c (ss1 ++ ss2) prev bs = Some (vs, n) ->
+  exists n1, par_seq c ss1 prev bs = Some (firstn (length ss1) vs, n1).
+Proof.
+  intros c. induction ss1 as [|s ss1 IH]; intros ss2 prev bs vs n H.
+  - exists 0%nat. reflexivity.
+  - cbn [app par_seq] in H. cbn [par_seq].
+    destruct (par c s prev bs) as [[v n1]|]; [|discriminate].
+    destruct (par_seq c (ss1 ++ ss2) (adv_prev n1 prev bs) (skipn n1 bs)) as [[vs' m]|] eqn:E; [|discriminate].
+    inversion H; subst. destruct (IH _ _ _ _ _ E) as [m1 H1]. rewrite H1.
+    exists (n1 + m1)%nat. reflexivity.
+Qed.
+
+Lemma nth_error_firstn_lt : forall (A : Type) (l : list A) n i, (i < n)%nat ->
+  nth_error (firstn n l) i = nth_error l i.
+Proof.
+  intros A l. induction l as [|x l IH]; intros n i H.
+  - rewrite firstn_nil. reflexivity.
+  - destruct n; [lia|]. destruct i; [reflexivity|]. cbn. apply IH. lia.
+Qed.
+
+Lemma tight_phy_fields : forall pc k,
+  tight_fields (p_head pc) = true -> forallb (fun a => wf_a a && tight_a a) (p_row pc) = true ->
+  tight_fields (phy_fields pc k) = true.
+Proof.
+  intros pc k Hh Hr.
+  change (tight_seq F_codec (p_head pc) = true) in Hh.
+  change (tight_seq F_codec (p_head pc ++ concat (repeat (map F1 (p_row pc)) k)) = true).
+  unfold tight_seq in *. rewrite forallb_app. apply andb_true_iff. split; [exact Hh|].
+  induction k as [|k IH]; [reflexivity|].
+  cbn [repeat concat]. rewrite forallb_app. apply andb_true_iff. split; [|exact IH].
+  clear IH Hh. induction (p_row pc) as [|a r IHr]; [reflexivity|].
+  cbn [map forallb] in *. apply andb_true_iff in Hr as [Ha Hr].
+  apply andb_true_iff. split; [exact Ha | exact (IHr Hr)].
+Qed.
+
+(* values -> parameter block -> values for the two hand-written commands: with as many
+   per-PHY items as the mask has bits, everything comes back, whatever follows *)
+Theorem phy_roundtrip : forall pc prev0 vs k,
+  wf_phy pc = true -> phy_count pc vs = Some k ->
+  in_range (phy_fields pc k) prev0 vs = true ->
+  exists b, serialize_phy pc vs = Some b /\
+            forall tail, parse_phy pc prev0 (b ++ tail) = Some vs.
+Proof.
+  intros pc prev0 vs k Hw Hk Hi.
+  unfold wf_phy in Hw. apply andb_true_iff in Hw as [Hw Hidx].
+  apply andb_true_iff in Hw as [Hw _]. apply andb_true_iff in Hw as [Hh Hr].
+  pose proof (tight_phy_fields pc k Hh Hr) as Ht.
+  destruct (parse_serialize_tight _ prev0 vs Ht Hi) as [b [Hs Hp]].
+  exists b. split; [unfold serialize_phy; rewrite Hk; exact Hs|].
+  intro tail. specialize (Hp tail). unfold parse_phy.
+  unfold parse_fields, phy_fields in Hp.
+  destruct (par_seq_prefix F_codec _ _ _ _ _ _ Hp) as [n1 Hhd].
+  unfold parse_fields. rewrite Hhd.
+  assert (Hlt : (p_idx pc < length (p_head pc))%nat).
+  { apply nth_error_Some. destruct (nth_error (p_head pc) (p_idx pc)); [discriminate|discriminate Hidx]. }
+  match goal with |- context [phy_count pc ?x] => assert (phy_count pc x = Some k) as -> end.
+  { unfold phy_count in *. rewrite nth_error_firstn_lt by exact Hlt. exact Hk. }
+  unfold phy_fields. rewrite Hp. reflexivity.
 Qed.
 
 (* ------------------------------------------------------------------ ISO, bytes -> packet -> bytes *)
@@ -944,4 +1057,50 @@ Proof.
       cbn [packet_bytes]. unfold iso_bytes. cbv zeta.
       change (Z.lor (Z.lor (Z.shiftl 1 14) (Z.shiftl pb 12)) handle) with (iso_info 1 pb handle).
       rewrite Hinfo, Hri, Hrt, Hra, Hei, Het, Hea. reflexivity.
+Qed.
+
+Lemma find_phy_code : forall R op pc, find_phy R op = Some pc -> p_code pc = op /\ In pc (r_phy R).
+Proof.
+  intros R op pc H. unfold find_phy in H. apply find_some in H as [Hin H].
+  apply Z.eqb_eq in H. auto.
+Qed.
+
+Theorem phy_command_roundtrip : forall R pc vs k b,
+  find_class R K_COMMAND (p_code pc) = None -> find_phy R (p_code pc) = Some pc ->
+  wf_phy pc = true -> phy_count pc vs = Some k ->
+  serialize_phy pc vs = Some b -> (length b < 256)%nat ->
+  in_range (phy_fields pc k) (last b 0) vs = true ->
+  exists pkt, packet_bytes R (PCommand (p_code pc) true vs b) = Some pkt /\
+              parse_packet R pkt = Some (PCommand (p_code pc) true vs b).
+Proof.
+  intros R pc vs k b Hf Hphy Hw Hk Hs Hlen Hi.
+  assert (Hop : u_range 2 (p_code pc) = true).
+  { unfold wf_phy in Hw. apply andb_true_iff in Hw as [Hw _]. apply andb_true_iff in Hw as [_ Hw]. exact Hw. }
+  exists (HCI_COMMAND_PACKET :: le_encode 2 (p_code pc) ++ [Z.of_nat (length b)] ++ b). split.
+  - cbn [packet_bytes]. unfold class_params. rewrite Hf. change (K_COMMAND =? K_COMMAND) with true.
+    cbv iota. rewrite Hphy, Hs, cached_same.
+    unfold command_bytes. rewrite Hop.
+    assert ((length b <? 256)%nat = true) as -> by (apply Nat.ltb_lt; exact Hlen). reflexivity.
+  - destruct (phy_roundtrip pc (last b 0) vs k Hw Hk Hi) as [b' [Hs' Hp]].
+    rewrite Hs in Hs'. assert (b' = b) as -> by congruence. clear Hs'.
+    specialize (Hp []). rewrite app_nil_r in Hp.
+    rewrite le2_shape. cbn [app]. unfold parse_packet, HCI_COMMAND_PACKET. cbn [Z.eqb Pos.eqb].
+    unfold parse_command. cbn [length Nat.ltb Nat.leb skipn firstn nth].
+    rewrite le2_decode_encode by exact Hop. rewrite Z.eqb_refl. cbn [negb].
+    rewrite Hf, Hphy, Hp, Hs. reflexivity.
+Qed.
+
+(* ------------------------------------------------------------------ the cache and well-formed blocks *)
+(* A parameter block is well-formed for a class when the class's parser consumes it exactly.
+   For such a block it does not matter whether __bytes__ uses the cached bytes or
+   recomputes them from the fields: both give the block back - also when it is empty. *)
+Theorem wellformed_block_recomputes : forall fs prev ps vs,
+  wf_fields fs = true -> tight_fields fs = true -> bytes_ok ps = true ->
+  parse_fields fs prev ps = Some (vs, length ps) ->
+  serialize_fields fs vs = Some ps /\ cached ps (serialize_fields fs vs) = Some ps.
+Proof.
+  intros fs prev ps vs Hw Ht Hok Hp.
+  destruct (serialize_parse fs prev ps vs (length ps) Hw Hok Hp (le_n _)) as [pad [Hs Hpad]].
+  rewrite (Hpad Ht), app_nil_r, firstn_all in Hs. split; [exact Hs|].
+  rewrite Hs. apply cached_same.
 Qed.
